@@ -77,7 +77,7 @@ class _Writer:
 
 
 class ReadLoop(Harness):
-    scope = "streams of 1..3 units from {NOOP line, empty line, line with sync literal, line with non-sync literal, over-limit sync literal, over-limit non-sync literal, over-size line} (MAX_INPUT_SIZE patched to 40), each under 3 segmentations"
+    scope = "streams of 1..3 units from {NOOP line, empty line, line with sync literal, line with non-sync literal, line with '{n}' / '{n+}' in the middle, over-limit sync literal, over-limit non-sync literal, over-size line} (MAX_INPUT_SIZE patched to 40), each under 3 segmentations"
     exhaustive = True
 
     UNITS = {
@@ -90,6 +90,9 @@ class ReadLoop(Harness):
         "biglitplus": b"a LOGIN {999+}\r\n",
         "bigline": b"a " + b"X" * 60 + b"\r\n",
         "sumbig": b"a " + b"Y" * 30 + b" {20}\r\n" + b"z" * 20 + b"\r\n",
+        # braces that do not end the line declare no literal
+        "brace-mid": b'a SEARCH SUBJECT "{3}" x\r\n',
+        "brace-mid-plus": b"a X {2+} y\r\n",
     }
 
     def inputs(self, tier, seed):
